@@ -395,6 +395,17 @@ def run(model: RepoModel, rep, tier: str):
     check_default_values(model, rep, P)
     from .c05 import _r9_hoisting
     _r9_hoisting(model, rep, "C01.R9")
+    # ------------------------------------------------------------------ R10..R12 (cross-cutting loop / call-shape rules)
+    from .. import generic2
+    rep.rule("C01.R10", "no element of a repeated construct is lost: a value the Python frontend computes for every child of a node (one name of a "
+                        "`global a, b`, one except clause, one deleted target) is handed on inside that iteration, not once after the loop", 20)
+    generic2.check_per_iteration_values(model, rep, "C01.R10", [PY, "lang/common_parser.py"])
+    rep.rule("C01.R11", "augmented assignment keeps operand order: `t op= e` and `place op= e` lower to old-value <op> e", 4)
+    generic2.check_augmented_operand_order(model, rep, "C01.R11", [PY])
+    rep.rule("C01.R12", "the tree rewriters of the normalisation passes hand their state down: a recursive call that forwards some of its state "
+                        "parameters unchanged forwards all of them", 2)
+    generic2.check_recursion_forwarding(model, rep, "C01.R12", ["events/default_event_handlers/basic.py", "events/default_event_handlers/add_var_decl.py",
+                                                              "lang/common_parser.py"])
 
 
 def check_receiver_param_removal(model: RepoModel, rep, RID: str, declare: bool = False):
